@@ -213,7 +213,8 @@ def run_hist(prog: dict) -> dict:
     hist = []
     for k, ev in zip(prog["case"]["kinds"], rets):
         hist.append({"kind": k, "ok": bool(ev.get("ok")), "fam": bool(ev.get("fam", False)), "failed": bool(ev.get("failed", False)),
-                     "rejected": bool(ev.get("rejected", False)), "cfc": int(ev.get("cfc", -1)), "exc": ev.get("exc", "")})
+                     "rejected": bool(ev.get("rejected", False)), "cfc": int(ev.get("cfc", -1)), "exc": ev.get("exc", ""),
+                     "msg": str(ev.get("msg", ""))})
     c = dict(prog["case"])
     c["hist"] = hist
     c["unhandled"] = any(ev["e"] == "UNHANDLED" for ev in tr["ev"])
@@ -358,6 +359,17 @@ def extend(run: Run, prop: str, tier: str, rnd: random.Random) -> None:
                 for h in hs + h3:
                     progs.append(life_program("ET", port, ka, "".join(h)))
         cases += engine.parallel_map("harness.checks_api", "run_life", progs, procs=16, chunk=20)
+    elif prop == "C08":
+        # what the caller of the inverter API sees when the inverter refuses (exception code 2): every history of up to
+        # 3 (thorough: 5) calls that contains a refusal, every family / transport
+        progs = []
+        for n in ((1, 2, 3) if quick else (1, 2, 3, 4, 5)):
+            for kinds in itertools.product("SFRE", repeat=n):
+                if "R" not in kinds:
+                    continue
+                for fam, port in (("ET", 8899), ("DT", 8899), ("ET", 502), ("DT", 502), ("ES", 8899)):
+                    progs.append(hist_program(fam, port, "".join(kinds), len(progs) % 2))
+        cases += engine.parallel_map("harness.checks_api", "run_hist", progs, procs=16, chunk=20)
     elif prop == "C09":
         L = 5 if quick else 8
         progs = []
